@@ -247,3 +247,170 @@ func touchesLockTypes(fn *ssa.Function) bool {
 	}
 	return false
 }
+
+// Rule "covered-callers: F, G, ...": the listed functions change state that the proofs of
+// the tagged properties are about (the session state machine, the outbound message log).
+// Every function of the module that calls one of them must itself be covered by a proof:
+// it has a contract, or it is an uncontracted helper/closure that is only ever *called*
+// (or deferred) by covered functions and is small enough to be executed in line with them.
+// A goroutine body, a stored function value or a public entry point that calls one of the
+// listed functions without a contract is an effect no obligation speaks about. One
+// obligation per call site of a listed function.
+func coveredCallersSweep(p *Prog, prop string, rr *RunResult) {
+	tags := p.CS.Rules["covered-callers"]
+	if !contains(tags, prop) {
+		return
+	}
+	targets := map[*ssa.Function]bool{}
+	for _, k := range p.CS.RuleArgs["covered-callers"] {
+		fn := p.FnByKey[k]
+		if fn == nil {
+			rr.Unbound = append(rr.Unbound, k)
+			continue
+		}
+		targets[fn] = true
+	}
+	var fns []*ssa.Function
+	for _, k := range sortedKeys(p.FnByKey) {
+		fn := p.FnByKey[k]
+		if len(fn.Blocks) == 0 || strings.HasSuffix(p.SSA.Fset.Position(fn.Pos()).Filename, "_test.go") {
+			continue
+		}
+		fns = append(fns, fn)
+	}
+	// uses of every function: who calls it, and is it used in any other way
+	type use struct {
+		by     *ssa.Function
+		called bool // plain call or defer (executed in line by the caller's proof)
+	}
+	uses := map[*ssa.Function][]use{}
+	for _, f := range fns {
+		for _, b := range f.Blocks {
+			for _, in := range b.Instrs {
+				var operands []*ssa.Value
+				operands = in.Operands(operands)
+				var calleeVal ssa.Value
+				inline := false
+				switch c := in.(type) {
+				case *ssa.Call:
+					calleeVal, inline = c.Call.Value, !c.Call.IsInvoke()
+				case *ssa.Defer:
+					calleeVal, inline = c.Call.Value, !c.Call.IsInvoke()
+				}
+				for _, op := range operands {
+					if op == nil || *op == nil {
+						continue
+					}
+					var g *ssa.Function
+					switch v := (*op).(type) {
+					case *ssa.Function:
+						g = v
+					case *ssa.MakeClosure:
+						continue // the MakeClosure instruction itself records the use of its Fn below
+					}
+					if g == nil {
+						continue
+					}
+					if _, isMC := in.(*ssa.MakeClosure); isMC {
+						continue
+					}
+					uses[g] = append(uses[g], use{f, inline && *op == calleeVal})
+				}
+				if mc, ok := in.(*ssa.MakeClosure); ok {
+					g := mc.Fn.(*ssa.Function)
+					refs := mc.Referrers()
+					if refs == nil || len(*refs) == 0 {
+						uses[g] = append(uses[g], use{f, false})
+					} else {
+						for _, r := range *refs {
+							switch c := r.(type) {
+							case *ssa.Call:
+								uses[g] = append(uses[g], use{f, c.Call.Value == mc && !c.Call.IsInvoke()})
+							case *ssa.Defer:
+								uses[g] = append(uses[g], use{f, c.Call.Value == mc && !c.Call.IsInvoke()})
+							case *ssa.DebugRef:
+							default:
+								uses[g] = append(uses[g], use{f, false})
+							}
+						}
+					}
+				}
+			}
+		}
+	}
+	state := map[*ssa.Function]int{} // 1 = in progress, 2 = covered, 3 = not covered
+	why := map[*ssa.Function]string{}
+	var covered func(f *ssa.Function) bool
+	covered = func(f *ssa.Function) bool {
+		switch state[f] {
+		case 1, 3:
+			return false
+		case 2:
+			return true
+		}
+		state[f] = 1
+		ok := false
+		if p.contractFor(f) != nil {
+			ok = true
+		} else if len(uses[f]) == 0 {
+			why[f] = "it has no contract and no caller in the module (an entry point)"
+		} else if len(findLoops(f)) > 0 {
+			why[f] = "it has no contract and contains a loop, so no caller's proof executes it"
+		} else {
+			ok = true
+			for _, u := range uses[f] {
+				if !u.called {
+					ok = false
+					why[f] = "it has no contract and is started as a goroutine, stored or passed as a value in " + dispName(u.by)
+					break
+				}
+				if !covered(u.by) {
+					ok = false
+					why[f] = "it has no contract and its caller " + dispName(u.by) + " is not covered either"
+					break
+				}
+			}
+		}
+		if ok {
+			state[f] = 2
+		} else {
+			state[f] = 3
+		}
+		return ok
+	}
+	for _, f := range fns {
+		var e *Exec
+		n := 0
+		for _, b := range f.Blocks {
+			for _, in := range b.Instrs {
+				ci, ok := in.(ssa.CallInstruction)
+				if !ok {
+					continue
+				}
+				callee := ci.Common().StaticCallee()
+				if callee == nil || !targets[callee] {
+					continue
+				}
+				if e == nil {
+					e = newExec(p, dispName(f))
+					e.fn = f
+				}
+				n++
+				goal := "true"
+				desc := fmt.Sprintf("the call of %s in %s is covered by a proof (the caller has a contract or is executed in line by one that has)", callee.Name(), dispName(f))
+				if !covered(f) {
+					goal = "false"
+					desc += ": " + why[f]
+				}
+				st := &State{reach: "true"}
+				o := e.obligeNoAssume(st, fmt.Sprintf("covered-callers:%s:%d", callee.Name(), n), "discipline", tags, goal, desc, in.Pos())
+				o.Pos = posOf(p, in.Pos())
+			}
+		}
+		if e != nil {
+			rr.Execs = append(rr.Execs, e)
+			rr.Functions = append(rr.Functions, e.name+" (covered-callers rule)")
+			rr.Obls = append(rr.Obls, e.obls...)
+		}
+	}
+}
